@@ -58,7 +58,8 @@ theorem empty_raises_no_elements {α} (rest : List (Notif α)) :
   constructor
   · rw [to_future_last_or_error]; rfl
   · have := ToFuture.runBlocking_aux (α := α) none (Notif.completed :: rest)
-    simpa [ToFuture.runBlocking] using this
+    simp only [Option.isSome_none] at this
+    exact this
 
 /-- **to_future_cancel_is_final.** Cancelling the pending future disposes the source subscription: the
 future stays cancelled whatever the source emits afterwards. -/
